@@ -330,7 +330,11 @@ def c12_r3(ctx):
         yield undecided("C12-R3", "normalize_path:accumulator", at(f), "return value is not a single accumulator variable: %s" % [expr_str(r) for r in rets])
         return
     # whole definitions
-    for i, x in enumerate(eb.var_defs(acc)):
+    inits = []
+    for x in eb.var_defs(acc):
+        # one initialiser per path (the value a spliced helper returns on each of its exits)
+        inits.extend(x[2] if x[0] == "phi" else [x])
+    for i, x in enumerate(inits):
         txt = expr_str(x)
         key = "normalize_path:%s=init#%d" % (acc, i + 1)
         if txt == "Utf8PathBuf::new()":
